@@ -9,14 +9,16 @@ PROPS = ["c20_published", "c20_published_sites", "c20_site_verdict_needed", "c20
          "c20_stalled_subscriber", "c20_waiting_fanout_refuted", "c20_save_atomic", "c20_saves_last_renamed",
          "c20_backup_rename_refuted", "c20_startup_name_only", "c20_startup_leftover",
          "c20_issue_delivered_churn", "c20_count_keyed_table_refuted",
-         "c20_read_pure", "c20_history_reader_independent", "c20_mutating_reader_refuted"]
+         "c20_read_pure", "c20_history_reader_independent", "c20_mutating_reader_refuted",
+         "c20_expire_keeps_future", "c20_retention_keeps_young", "c20_code_u64_is_model", "c20_code_u64_keeps_future",
+         "c20_clock_before_retention_wraps", "c20_age_subtraction_same_in_past", "c20_age_subtraction_refuted"]
 
 TRUSTED = [
     "encoding/gob and bufio between saveEvents and loadEvents (run for real on every save/reload; the model has 'a complete document of generation g' or 'something the decoder rejects'); Dominator fsutil.CreateRenamingWriter/Close is modelled as its list of file operations (open f~, write, fsync, close, rename, remove) and run for real with injected faults; the file system itself is names -> contents with atomic rename (no directory fsync, no delayed allocation)",
     "Go channel semantics: a buffered channel of capacity k accepts a non-blocking send iff it holds fewer than k elements (the model's try_send); the Go scheduler / memory model",
     "harness/eventnotifier/verif_export.go: registers a subscriber channel as handleConnection does, through reflection on the transmitChannels map (one history also uses the real CONNECT stream); TestVerif_C20S uses only the exported ServeHTTP with a hijackable writer over net.Pipe and the exported Publish* methods",
     "the 4 s watchdog around every publishing operation in TestVerif_C20S stands for 'does not return' (8 s in TestVerif_C20)",
-    "the recorder harness sets CreateTime of the event just recorded (recordEvent stamps time.Now() itself); expiry and load read the real clock",
+    "the recorder harness sets CreateTime of the event just recorded (recordEvent stamps time.Now() itself); expiry and load read the real clock; 'the clock is stepped back by d' is every stored CreateTime moved forward by d (the code's tests involve the clock and CreateTime only through their difference, as long as neither is near 0 or 2^64)",
     "tools/extract c20.go: signing-site table (handler reachability by name, lexical order of publish and response) and notifier send table",
     "fake STS endpoint in front of the cloud-role path",
     "subscriber churn (harness/kmd/c20k.go): the instant a new connection is registered is taken to be just before the first event it is handed (settle publications are made until it is handed one); a disconnect is complete when ServeHTTP has returned; a connection that has not been handed an event after 2 s (25 ms once four such waits have run out) is not waited for again before the end of its history",
@@ -100,6 +102,9 @@ def run(ctx):
     if h_result is not None and os.path.exists(os.path.join(ctx.work, "CasesC20H.v")):
         jobs.append(("CasesC20H.v", "c20h_mismatches", "CasesC20H.idx",
                      "readers of the history (every route of eventmon/httpd x the parameters it reads x candidate values, harvested from the package source) between the last event and the save, then a restart: every read-out after a reader ran, the saved file and the restarted recorder = the model's loop with readers that only look (%s reader requests)", "c20h_ncases"))
+    if rec_result is not None and os.path.exists(os.path.join(ctx.work, "CasesC20T.v")):
+        jobs.append(("CasesC20T.v", "c20t_mismatches", "CasesC20T.idx",
+                     "recorder start through New() on a saved history file whose entries are stamped ahead of the clock (seconds .. more than the retention), mixed with recent and expired ones: the history answered = the model's start-up on that file (%s starts)", "c20t_ncases"))
     if rec_result is not None and os.path.exists(os.path.join(ctx.work, "CasesC20F.v")):
         jobs.append(("CasesC20F.v", "c20f_mismatches", "CasesC20F.idx",
                      "recorder save with a crash point or a failing file operation, then a restart through New(): what it comes back with = what the model's save with the same crash / fault index leaves under the history name (%s saves)", "c20f_ncases"))
@@ -111,6 +116,11 @@ def run(ctx):
             if j[1] == "c20r_mismatches":
                 violating(ctx, res, "c20r_violating", "reload", j[2],
                           "property predicate evaluated in Coq on the observed dumps: a save and restart comes back with the entries of the state observed before it that are within the retention, in the same order")
+                violating(ctx, res, "c20r_future_lost", "event-from-future", j[2],
+                          "property predicate evaluated in Coq on the observed dumps: an entry stamped later than the clock of a save-and-restart or of an hourly expiry (so not older than the retention) is still there in the dump taken right after it")
+            if j[1] == "c20t_mismatches":
+                violating(ctx, res, "c20t_violating", "event-from-future", j[2],
+                          "property predicate evaluated in Coq on the observed start: every entry of the history file stamped later than the clock of the starting process is in the history it answers")
             if j[1] == "c20f_mismatches":
                 violating(ctx, res, "c20f_violating", "history-lost", j[2],
                           "property predicate evaluated in Coq on the observed restart: with a previous generation on disk the recorder comes back with it or with the new one")
@@ -126,7 +136,7 @@ def run(ctx):
             if j[1] == "c20s_mismatches":
                 violating(ctx, res, "c20s_violating", "stream", j[2],
                           "property predicate evaluated in Coq on the observed streams: every operation returned, every healthy subscriber was handed exactly the published sequence, a stalled one a subsequence of it")
-    ctx.assumptions = ["clock readings of one recorder never go backwards (hypothesis `monotone` of c20_history); the wall clock is later than 1970-02-01 (no uint64 wrap of now-31d)",
+    ctx.assumptions = ["clock readings of one recorder never go backwards (hypothesis `monotone` of c20_history); the wall clock is later than 1970-02-01 (no uint64 wrap of now-31d: hypothesis of c20_code_u64_is_model, the wrap itself is c20_clock_before_retention_wraps); the theorems about entries stamped ahead of the clock (c20_expire_keeps_future, c20_retention_keeps_young) and the recorder correspondence do NOT assume a monotone clock",
                        "subscriber identity: a detached channel stays in the model's list with live=false instead of being deleted from the map"]
     return ctx.finish("bin/build-coq; coqc Audit_Props_C20/Obl_C20/CasesC20/CasesC20R; go test -overlay TestVerif_C20 TestVerif_C20S (cmd/keymasterd) TestVerif_C20R (eventmon/eventrecorder) TestVerif_C20H (eventmon/httpd); coqc CasesC20S/K/L/F/H",
                       COMMON_TRUSTED + TRUSTED)
